@@ -84,6 +84,7 @@ Outcome runHistory(const Plan & p, Ctx & c)
   const Geo byAnchor {0.6L, -1.1L, 120.0L};
   rc::ENUConverter bystander(rc::makeGeodeticCoordinates((double)byAnchor.lat, (double)byAnchor.lon, (double)byAnchor.h));
   const Eigen::Affine3d byT = bystander.getEnuToEcefTransform();
+  std::unique_ptr<rc::ENUConverter> sibling; bool siblingAnchored = false; Geo siblingAnchor {0, 0, 0}; Eigen::Affine3d siblingT;
 
   auto geoOf = [](const Geo & g) {return rc::makeGeodeticCoordinates((double)g.lat, (double)g.lon, (double)g.h);};
   auto v3 = [](const Eigen::Vector3d & v) {return V3 {v.x(), v.y(), v.z()};};
@@ -193,15 +194,20 @@ Outcome runHistory(const Plan & p, Ctx & c)
     if (!anchored && (op.kind == TOENU_ECEF || op.kind == TOECEF || op.kind == TOWGS84 || op.kind == SET_OWN_ANCHOR)) {op.kind = OBSERVE; SIM_COUNT("op.skipped_needs_anchor");}
     Geo ga {op.lat, op.lon, op.alt};
     switch (op.kind) {
-      case CONSTRUCT: conv.reset(new rc::ENUConverter()); anchored = false; everReset = false; reanchored = false; SIM_COUNT("op.construct"); break;
-      case CONSTRUCT_ANCHOR: conv.reset(new rc::ENUConverter(geoOf(ga))); anchored = true; anchor = ga; everReset = false; reanchored = false; SIM_COUNT("op.construct_with_anchor"); break;
+      case CONSTRUCT: sibling.reset(); conv.reset(new rc::ENUConverter()); anchored = false; everReset = false; reanchored = false; SIM_COUNT("op.construct"); break;
+      case CONSTRUCT_ANCHOR: sibling.reset(); conv.reset(new rc::ENUConverter(geoOf(ga))); anchored = true; anchor = ga; everReset = false; reanchored = false; SIM_COUNT("op.construct_with_anchor"); break;
       case SET_ANCHOR:
         if (anchored) {SIM_PROBE("set_anchor_replaces_existing_frame");}
         conv->setAnchor(geoOf(ga)); if (everReset) {reanchored = true;}
         anchored = true; anchor = ga; SIM_COUNT("op.setAnchor"); break;
-      case COPY:
-        // the (implicit) copy constructor carries flag, anchor and frame over; the history continues on the copy
-        conv.reset(new rc::ENUConverter(*conv)); SIM_PROBE("continue_on_a_copy"); break;
+      case COPY: {
+          // the (implicit) copy constructor carries flag, anchor and frame over; the history continues on the copy,
+          // and the original stays alive as a sibling that nothing done to the copy may change
+          std::unique_ptr<rc::ENUConverter> copy(new rc::ENUConverter(*conv));
+          sibling = std::move(conv); conv = std::move(copy);
+          siblingAnchored = anchored; siblingAnchor = anchor; siblingT = sibling->getEnuToEcefTransform();
+          SIM_PROBE("continue_on_a_copy"); break;
+        }
       case SET_OWN_ANCHOR:
         // the argument aliases the converter's own stored anchor: the frame must simply stay what it is
         conv->setAnchor(conv->getAnchor()); SIM_PROBE("set_anchor_with_own_anchor_reference"); break;
@@ -262,6 +268,17 @@ Outcome runHistory(const Plan & p, Ctx & c)
     if (!bystander.isAnchored() || !(bystander.getEnuToEcefTransform().matrix() == byT.matrix()) ||
       !(bystander.toENU(rc::makeGeodeticCoordinates((double)byAnchor.lat, (double)byAnchor.lon, (double)byAnchor.h)).norm() <= (double)kMillimetre)) {
       return Outcome::fail("bystander-converter-changed", fmt("after op #%zu (%s) on the subject, another converter anchored elsewhere no longer has its own frame", no, kOpName[op.kind]));
+    }
+    if (sibling) {
+      bool okS = sibling->isAnchored() == siblingAnchored && sibling->getEnuToEcefTransform().matrix() == siblingT.matrix();
+      if (okS && siblingAnchored) {
+        okS = sibling->getAnchor().latitude == (double)siblingAnchor.lat && sibling->getAnchor().longitude == (double)siblingAnchor.lon &&
+          sibling->toENU(rc::makeGeodeticCoordinates((double)siblingAnchor.lat, (double)siblingAnchor.lon, (double)siblingAnchor.h)).norm() <= (double)kMillimetre;
+        SIM_PROBE("original_checked_after_its_copy_was_changed");
+      }
+      if (!okS) {
+        return Outcome::fail("original-changed-through-its-copy", fmt("after op #%zu (%s) on a copy, the converter it was copied from no longer has the frame it had", no, kOpName[op.kind]));
+      }
     }
   }
   return Outcome::pass();
@@ -424,7 +441,7 @@ struct PropC02
   {
     return {"set_anchor_replaces_existing_frame", "reset_of_unanchored_converter", "auto_anchor_after_reset", "auto_anchor_of_fresh_converter",
       "auto_anchor_wgs84_after_reset", "frame_checked_after_reset_and_reanchor", "anchor_within_0.1rad_of_antimeridian", "anchor_beyond_80deg_latitude",
-      "local_point_beyond_90km", "set_anchor_with_own_anchor_reference", "continue_on_a_copy"};
+      "local_point_beyond_90km", "set_anchor_with_own_anchor_reference", "continue_on_a_copy", "original_checked_after_its_copy_was_changed"};
   }
   Json describe() const
   {
